@@ -19,8 +19,20 @@ import (
 // value on the path is a constant follow only the matching arm. ok is false
 // when the exploration was cut off.
 func ValuesOnPaths(from, at ssa.Instruction, v ssa.Value) (vals []ssa.Value, ok bool) {
-	if from.Parent() != at.Parent() || from.Parent() == nil {
+	return ValuesOnPathsAssuming(from, at, v, nil)
+}
+
+// ValuesOnPathsAssuming is ValuesOnPaths under assumed outcomes of
+// comparisons / calls (as in ReachableTrackingFlags); from == nil starts at
+// the function entry.
+func ValuesOnPathsAssuming(from, at ssa.Instruction, v ssa.Value, assume map[ssa.Value]bool) (vals []ssa.Value, ok bool) {
+	if at.Parent() == nil || len(at.Parent().Blocks) == 0 || (from != nil && from.Parent() != at.Parent()) {
 		return nil, false
+	}
+	if assume != nil {
+		old := assumed
+		assumed = assume
+		defer func() { assumed = old }()
 	}
 	closure := map[*ssa.Phi]bool{}
 	var add func(x ssa.Value)
@@ -35,6 +47,9 @@ func ValuesOnPaths(from, at ssa.Instruction, v ssa.Value) (vals []ssa.Value, ok 
 		}
 	}
 	add(v)
+	for ph := range flagPhis(at.Parent()) {
+		closure[ph] = true
+	}
 	byBlock := map[*ssa.BasicBlock][]*ssa.Phi{}
 	var order []*ssa.Phi
 	for ph := range closure {
@@ -48,6 +63,7 @@ func ValuesOnPaths(from, at ssa.Instruction, v ssa.Value) (vals []ssa.Value, ok 
 		return InstrIndex(order[i]) < InstrIndex(order[j])
 	})
 	type env map[*ssa.Phi]ssa.Value
+	type facts map[ssa.Value]bool // outcomes of the branch conditions taken on the path
 	resolve := func(x ssa.Value, e env) ssa.Value {
 		if ph, isPhi := x.(*ssa.Phi); isPhi {
 			if r, has := e[ph]; has {
@@ -68,6 +84,15 @@ func ValuesOnPaths(from, at ssa.Instruction, v ssa.Value) (vals []ssa.Value, ok 
 	type state struct {
 		b, pred *ssa.BasicBlock
 		e       env
+		f       facts
+	}
+	ffp := func(f facts) string {
+		var ks []string
+		for v, t := range f {
+			ks = append(ks, fmt.Sprintf("%p=%v", v, t))
+		}
+		sort.Strings(ks)
+		return strings.Join(ks, ",")
 	}
 	seenState := map[string]bool{}
 	seenVal := map[ssa.Value]bool{}
@@ -90,6 +115,7 @@ func ValuesOnPaths(from, at ssa.Instruction, v ssa.Value) (vals []ssa.Value, ok 
 		return false, false
 	}
 	// truth of a branch condition under the environment, when it is a tracked flag (possibly negated)
+	var curFacts facts
 	var truth func(x ssa.Value, e env, d int) (bool, bool)
 	truth = func(x ssa.Value, e env, d int) (bool, bool) {
 		if d > 4 {
@@ -99,10 +125,41 @@ func ValuesOnPaths(from, at ssa.Instruction, v ssa.Value) (vals []ssa.Value, ok 
 			t, known := truth(u.X, e, d+1)
 			return !t, known
 		}
-		return constBool(resolve(x, e))
+		x = resolve(x, e)
+		if u, isU := x.(*ssa.UnOp); isU && u.Op == token.NOT {
+			t, known := truth(u.X, e, d+1)
+			return !t, known
+		}
+		if t, has := assume[x]; has {
+			return t, true
+		}
+		if t, has := curFacts[x]; has {
+			return t, true
+		}
+		return constBool(x)
+	}
+	// the (un-negated, path-resolved) value a branch tests, and whether it is tested negated
+	tested := func(x ssa.Value, e env) (ssa.Value, bool) {
+		neg := false
+		for k := 0; k < 4; k++ {
+			if u, isU := x.(*ssa.UnOp); isU && u.Op == token.NOT {
+				x, neg = u.X, !neg
+				continue
+			}
+			r := resolve(x, e)
+			if r == x {
+				break
+			}
+			x = r
+		}
+		return x, neg
 	}
 	succs := func(s state) []*ssa.BasicBlock {
+		curFacts = s.f
 		out := feasibleSuccs(s.b, s.pred)
+		if assume != nil {
+			out = feasibleSuccsAssuming(s.b, s.pred)
+		}
 		if len(out) == 2 {
 			if iff, isIf := s.b.Instrs[len(s.b.Instrs)-1].(*ssa.If); isIf {
 				if t, known := truth(iff.Cond, s.e, 0); known {
@@ -128,17 +185,43 @@ func ValuesOnPaths(from, at ssa.Instruction, v ssa.Value) (vals []ssa.Value, ok 
 					ne[ph] = resolve(ph.Edges[pi], s.e)
 				}
 			}
-			k := fmt.Sprintf("%d|%d|%s", t.Index, s.b.Index, fp(ne))
+			// what taking this edge says about the tested value; facts about values that the
+			// entered block computes anew are dropped
+			nf := facts{}
+			for v, tv := range s.f {
+				if in, isIn := v.(ssa.Instruction); isIn && in.Block() == t {
+					continue
+				}
+				nf[v] = tv
+			}
+			if len(s.b.Succs) == 2 && s.b.Succs[0] != s.b.Succs[1] {
+				if iff, isIf := s.b.Instrs[len(s.b.Instrs)-1].(*ssa.If); isIf {
+					if cv, neg := tested(iff.Cond, s.e); cv != nil {
+						if _, isC := cv.(*ssa.Const); !isC {
+							nf[cv] = (t == s.b.Succs[0]) != neg
+						}
+					}
+				}
+			}
+			k := fmt.Sprintf("%d|%d|%s|%s", t.Index, s.b.Index, fp(ne), ffp(nf))
 			if seenState[k] {
 				continue
 			}
 			seenState[k] = true
-			work = append(work, state{t, s.b, ne})
+			work = append(work, state{t, s.b, ne, nf})
 		}
 	}
-	start := state{from.Block(), nil, env{}}
-	if from.Block() == at.Block() && InstrIndex(from) < InstrIndex(at) {
-		record(start.e)
+	var start state
+	if from == nil {
+		start = state{at.Parent().Blocks[0], nil, env{}, facts{}}
+		if start.b == at.Block() {
+			record(start.e)
+		}
+	} else {
+		start = state{from.Block(), nil, env{}, facts{}}
+		if from.Block() == at.Block() && InstrIndex(from) < InstrIndex(at) {
+			record(start.e)
+		}
 	}
 	step(start)
 	for n := 0; len(work) > 0; n++ {
